@@ -63,12 +63,12 @@ struct GBuf {
 #if VF_ASAN
     // aligned_alloc(64, n) requires n % 64 == 0 in strict mode; use posix_memalign with the exact size
     void* q = 0;
-    if (posix_memalign(&q, 64, total ? total : 1)) machinery_error("posix_memalign");
+    if (__real_posix_memalign(&q, 64, total ? total : 1)) machinery_error("posix_memalign");
     base = (uint8_t*)q;
     p = base + lg;
     if (lg) __asan_poison_memory_region(base, lg);
 #else
-    base = (uint8_t*)aligned_alloc(64, alloc);
+    base = (uint8_t*)__real_aligned_alloc(64, alloc);
     if (!base) machinery_error("aligned_alloc");
     p = base + lg;
     memset(base, CAN, lg);
@@ -80,7 +80,7 @@ struct GBuf {
 #if VF_ASAN
       if (lg) __asan_unpoison_memory_region(base, lg);
 #endif
-      free(base);
+      __real_free(base);
     }
     base = p = 0;
   }
